@@ -1579,3 +1579,25 @@ def catch_handlers(report):
     report["catch_handlers"] = {"handlers_found": seen, "bad": bad}
     return z3lemma.StaticGroup("exc.handlers", ok=not bad, detail="; ".join(bad) or "%d catch handler(s) in the solver / factorization classes, none swallows or copies the exception" % seen,
                                obligation="the operator's exception leaves the solver unchanged in type (no handler swallows it or re-throws a copy)")
+
+
+
+def norm_kind(report):
+    """Supporting static obligation for C07 (clause V^H B V = I, V^H B f = 0): every residual norm that is stored in m_beta or handed
+    back through expand_basis' fnorm - the quantity basis vectors are normalised with - is taken in the B-inner product
+    (`m_op.norm(.)`), never the Euclidean `.norm()`; the only other value ever stored is a literal zero."""
+    from vlib import z3lemma
+    bad, seen = [], 0
+    for hdr, cls, fn in ((AH, "Arnoldi", "expand_basis"), (AH, "Arnoldi", "init"), (AH, "Arnoldi", "factorize_from"), (LH, "Lanczos", "factorize_from"), (AH, "Arnoldi", "compress_V")):
+        f = X.locate(hdr, fn, cls=cls)
+        for m in re.finditer(r"\b(m_beta|fnorm|v0norm|vnorm)\s*=\s*([^;]+);", f.body):
+            seen += 1
+            rhs = " ".join(m.group(2).split())
+            if not (re.match(r"^m_op\.norm\(\w+\)$", rhs) or re.match(r"^(Real)?Scalar\(0\)$", rhs)):
+                bad.append("%s::%s: `%s = %s`" % (cls, fn, m.group(1), rhs))
+        for m in re.finditer(r"[\w.>-]+\.norm\(\)", f.body):
+            if not m.group(0).startswith("m_op"):
+                bad.append("%s::%s uses the Euclidean norm `%s`" % (cls, fn, m.group(0)))
+    report["norm_kind"] = {"assignments_seen": seen, "bad": bad}
+    return z3lemma.StaticGroup("norm.kind", ok=not bad and seen >= 8, detail="; ".join(bad) or "%d norm assignments in Arnoldi/Lanczos, all through m_op.norm() (B-inner product) or literal 0" % seen,
+                               obligation="residual norms used to normalise basis vectors are B-norms")
